@@ -97,8 +97,16 @@ Lemma routes_agree ty stoch node_at :
   switch_eligible ty stoch node_at = factory_anthropogenic_eligible ty stoch node_at.
 Proof. destruct ty, stoch, node_at; vm_compute; split; reflexivity. Qed.
 
-Lemma dynamic_kernel_arguments : dynamic_kernel_args = dynamic_kernel_args_spec.
-Proof. reflexivity. Qed.
+(* create_dynamic_kernel: arguments in the order of the mix constructor's
+   parameters; the anthropogenic kernel exists whenever it is enabled; the mix
+   asks it for eligibility only when enabled, so a kernel left out is never
+   dereferenced. *)
+Lemma dynamic_kernel_arguments :
+  dynamic_kernel_args = dynamic_kernel_args_spec /\
+  dynamic_kernel_anthro_built true = true /\
+  (forall use, mix_queries_eligibility use = use) /\
+  (forall use, dynamic_mix_null_dereference use = false).
+Proof. repeat split; try reflexivity; intros []; reflexivity. Qed.
 
 (* ---------- the mix built from real kernels ---------- *)
 Ltac finite_mix :=
